@@ -35,6 +35,7 @@ fn opt_name(code: i64) -> &'static str {
         42 => "ntp-servers",
         114 => "captive-portal",
         119 => "dns-searches",
+        252 => "wpad-url",
         _ => "unknown",
     }
 }
@@ -60,6 +61,8 @@ fn opt_yaml(code: i64, k: i64) -> String {
         (114, _) => "https://portal.example/two".into(),
         (119, 1) => "[a.example]".into(),
         (119, _) => "[b.example, c.example]".into(),
+        (252, 1) => "http://wpad.example/one.dat".into(),
+        (252, _) => "http://wpad.example/two.dat".into(),
         _ => "0".into(),
     }
 }
@@ -100,6 +103,8 @@ fn opt_wire(code: i64, k: i64) -> Vec<u8> {
         (114, _) => b"https://portal.example/two".to_vec(),
         (119, 1) => labels(&["a.example"]),
         (119, _) => labels(&["b.example", "c.example"]),
+        (252, 1) => b"http://wpad.example/one.dat".to_vec(),
+        (252, _) => b"http://wpad.example/two.dat".to_vec(),
         _ => vec![],
     }
 }
